@@ -6,6 +6,8 @@ package store
 // history equals the root of a fresh store that receives the final key/value set in a single block. Between the
 // blocks of a history, candidate blocks are applied, their root is read and they are discarded (Reset), and empty
 // blocks are committed: none of that may change a committed root.
+// Histories alternate between a densely populated tree and a sparse one (few leaves per subtree, then blocks above
+// the parallel threshold that delete them).
 // Bounds: key pool size, blocks per history, ops per block and number of histories are printed.
 
 import (
@@ -98,7 +100,14 @@ func TestVerifBoundedC08(t *testing.T) {
 		present := map[string]bool{}
 		// first block populates the tree
 		var first []verifOp
-		for i := 0; i < 60+rng.Intn(pool-60); i++ {
+		// two regimes: a densely populated tree, and a SPARSE one (a handful of leaves, so that whole subtrees hold
+		// one or two leaves next to their borders) that is then hit by blocks above the parallel threshold
+		sparse := h%2 == 1
+		nFirst := 60 + rng.Intn(pool-60)
+		if sparse {
+			nFirst = 1 + rng.Intn(12)
+		}
+		for i := 0; i < nFirst; i++ {
 			k := fmt.Sprintf("key-%03d", rng.Intn(pool))
 			first = append(first, verifOp{k, fmt.Sprintf("v0-%d", rng.Intn(1000))})
 			present[k] = true
@@ -107,7 +116,22 @@ func TestVerifBoundedC08(t *testing.T) {
 		for b := 1; b < nb; b++ {
 			n := 1 + rng.Intn(maxOps) // below and above the parallel threshold (16)
 			var blk []verifOp
-			for i := 0; i < n; i++ {
+			if sparse {
+				// delete most of what is present, and pad with fresh keys up to the parallel threshold
+				n = 17 + rng.Intn(16)
+				var have []string
+				for k := range present {
+					have = append(have, k)
+				}
+				sort.Strings(have)
+				for _, k := range have {
+					if rng.Intn(3) != 0 {
+						blk = append(blk, verifOp{k, ""})
+						delete(present, k)
+					}
+				}
+			}
+			for i := len(blk); i < n; i++ {
 				k := fmt.Sprintf("key-%03d", rng.Intn(pool))
 				switch r := rng.Intn(10); {
 				case r < 5: // overwrite / insert
